@@ -36,7 +36,8 @@ META = {
 
 MC_CFG = """SPECIFICATION Spec
 CONSTANTS
- Builders = {{1, 2}}
+ Builders = {builders}
+ RxOf <- RxMap
  Aligns = {aligns}
  Stables = {stables}
  Names = {names}
@@ -64,7 +65,7 @@ def keys_along(acts):
     out = []
     for i, a in enumerate(acts):
         n, b = a[0], a[1]
-        c = cfg.setdefault(b, {"align": "none", "stable": "none", "scalar": 0, "coup": 0, "naming": "default"})
+        c = cfg.setdefault(b, {"align": "none", "stable": "none", "scalar": 0, "coup": 0, "naming": "default", "rx": "sub" if b == 3 else "full"})
         ch = choice.setdefault(b, {})
         perm.setdefault(b, 0)
         if n == "SetAlign":
@@ -108,6 +109,14 @@ def pair_histories(alphabet):
         # one builder: A, B, A again;  two builders interleaved: 1 under A, 2 under B, 1 again
         hs.append(conf(1, A) + [["Formulate", 1]] + conf(1, B) + [["Formulate", 1]] + conf(1, A) + [["Formulate", 1]])
         hs.append(conf(1, A) + conf(2, B) + [["Formulate", 2], ["Formulate", 1], ["Formulate", 2]])
+    # two reactions over the same particles in one process: builder 3 works on the decay with a restricted helicity set
+    for A in alphabet:
+        def conf3(b, K):
+            cfg, choice, perm = K
+            return ([["SetAlign", b, cfg["align"]], ["SetStable", b, cfg["stable"]], ["SetScalar", b, cfg["scalar"]], ["SetCoup", b, cfg["coup"]],
+                     ["SetNaming", b, cfg.get("naming", "default")]] + [["Assign", b, n, choice.get(n, "none")] for n in ("R1", "R2")] + ([["Permutate", b]] if perm else []))
+        hs.append(conf3(3, A) + [["Formulate", 3]] + conf3(1, A) + [["Formulate", 1], ["Formulate", 3]])
+        hs.append(conf3(1, A) + [["Formulate", 1]] + conf3(3, A) + [["Formulate", 3], ["Formulate", 1]])
     return hs
 
 
@@ -124,22 +133,22 @@ def run(chk, replay=None):
     chk.assume("TLC/SANY", "sympy.srepr / repr digests identify a model (dictionary order included)", "fork gives clean process-global caches per behaviour")
     # 1. design
     small = dict(aligns='{"none", "dpd1"}', stables='{"none", "all", "bogus"}', names='{"R1"}', tags='{"none", "bwff"}')
-    res = tlc.run("Builder_MC", MC_CFG.format(**small, ops=7 if tier == "thorough" else 6, dev="DevNone", props=PROPS), workers=12, coverage=True, fast_start=False, timeout=1500)
+    res = tlc.run("Builder_MC", MC_CFG.format(**small, builders="{1, 2}", ops=7 if tier == "thorough" else 6, dev="DevNone", props=PROPS), workers=12, coverage=True, fast_start=False, timeout=1500)
     chk.add_tlc("design_exhaustive", res)
     if not res.ok:
         raise Machinery(f"Builder design violates {res.violated}")
     if any(res.coverage.get(a, 0) == 0 for a in ("SetAlign", "SetStable", "SetScalar", "SetCoup", "SetNaming", "Assign", "Permutate", "Formulate")):
         raise Machinery(f"vacuous: action coverage {res.coverage}")
-    for dev in ("DevPinned", "DevNoReset", "DevResetAtEnd", "DevSharedNameMap"):
-        r = tlc.run("Builder_MC", MC_CFG.format(**small, ops=6, dev=dev, props="INVARIANT Pure\n"), workers=4, timeout=600)
+    for dev in ("DevPinned", "DevNoReset", "DevResetAtEnd", "DevSharedNameMap", "DevCrossReactionCache"):
+        r = tlc.run("Builder_MC", MC_CFG.format(**small, builders="{1, 3}" if dev == "DevCrossReactionCache" else "{1, 2}", ops=6, dev=dev, props="INVARIANT Pure\n"), workers=4, timeout=600)
         if r.ok:
             raise Machinery(f"Builder model insensitive to deviation {dev}")
-    chk.part("deviation_sensitivity", DpdCacheAliasing="violates Pure", NoReset="violates Pure", ResetAtEnd="violates Pure", SharedNameMap="violates Pure")
+    chk.part("deviation_sensitivity", DpdCacheAliasing="violates Pure", NoReset="violates Pure", ResetAtEnd="violates Pure", SharedNameMap="violates Pure", CrossReactionCache="violates Pure")
 
     # 2. behaviours
     big = dict(aligns='{"none", "axis", "dpd1", "dpd2"}', stables='{"none", "all", "one", "bogus"}', names='{"R1", "R2"}', tags='{"none", "bw", "bwff"}')
     nsim = 60 if tier == "thorough" else 12
-    behs = tlc.simulate("Builder_MC", MC_CFG.format(**big, ops=14, dev="DevNone", props=""), num=nsim, depth=15, seed=chk.seed + 3, with_states=False)
+    behs = tlc.simulate("Builder_MC", MC_CFG.format(**big, builders="{1, 2, 3}", ops=14, dev="DevNone", props=""), num=nsim, depth=15, seed=chk.seed + 3, with_states=False)
     histories = [spec_actions(b) for b in behs]
     base = {"align": "none", "stable": "none", "scalar": 0, "coup": 0, "naming": "default"}
     alphabet = [
